@@ -175,6 +175,7 @@ def _lifecycle(cfl, ci, ei, second):
                         orig(data)
                         await cl.c.disconnect()
                     cl.c.on('message', amsg)
+                    cl._restore_message = orig
                 fs.push('4trigger')
             elif end == 'ws-close-frame':
                 if not ws:
@@ -233,14 +234,20 @@ def _lifecycle(cfl, ci, ei, second):
         if second:
             fs2 = fs
             fs2.handshake, fs2.poll_mode, fs2.post_mode, fs2.ws_mode, fs2.probe_reply = 'ok', 'normal', 'ok', 'ok', '3probe'
-            fs2.upgrades = []
+            # second: 1 = polling, 2 = WebSocket only, 3 = polling then upgrade
+            fs2.upgrades = ['websocket'] if second == 3 else []
             fs2.outbox = []
             fs2.link = None          # (the scripted server forgets the WebSocket of the first connection)
             cl.in_handler.clear()
-            h2 = cl.call('connect', 'http://srv.example', transports=['polling'])
+            if getattr(cl, '_restore_message', None) is not None:
+                cl.c.on('message', cl._restore_message)      # (the handler that disconnects belongs to the first connection's script)
+            h2 = cl.call('connect', 'http://srv.example', transports={1: ['polling'], 2: ['websocket'], 3: None}.get(int(second), ['polling']))
             k.run(until=k.now + 2)
+            st['second'] = {1: 'polling', 2: 'websocket', 3: 'upgrade'}.get(int(second), 'polling')
             if not h2.task.done_ or h2.exc is not None or cl.state() != 'connected':
                 return fail(PROP, 'RECONNECT', 'second connect(): done=%s exc=%r state %s' % (h2.task.done_, h2.exc, cl.state()), **st)
+            if cl.c.transport() != ('polling' if int(second) == 1 else 'websocket'):
+                return fail(PROP, 'RECONNECT', 'second connect(): transport %s' % cl.c.transport(), **st)
             if [e[0] for e in cl.events[nev:]] != ['connect']:
                 return fail(PROP, 'RECONNECT', 'second connect(): events %r' % (cl.events[nev:],), **st)
             # the new connection starts clean: the only thing the client transmits is what the application sends now
@@ -272,12 +279,14 @@ def _lifecycle(cfl, ci, ei, second):
         k.teardown()
 
 
-@cond(quick=dict(timeout=170, parts=dict(C=[0, 1])), thorough=dict(timeout=600, parts=dict(C=[0, 1])))
-def lifecycle(cfl: int, ci: int, ei: int, second: bool) -> str:
+@cond(quick=dict(SEC=1, timeout=170, parts=dict(C=[0, 1])), thorough=dict(SEC=3, timeout=600, parts=dict(C=[0, 1])))
+def lifecycle(cfl: int, ci: int, ei: int, second: int) -> str:
     """
-    pre: cfl == P.C and 0 <= ci < len(CONNECT) and 0 <= ei < len(ENDS) and (ci <= 7 or ei == 0)
+    pre: cfl == P.C and 0 <= ci < len(CONNECT) and 0 <= ei < len(ENDS) and (ci <= 7 or ei == 0) and 0 <= second <= P.SEC
     post: _ == ''
     """
+    # second: the same client object connects again afterwards (quick: over polling; thorough: also WebSocket-only and
+    # polling followed by an upgrade)
     return verdict(untraced(_lifecycle, cfl, ci, ei, second))
 
 
